@@ -221,6 +221,37 @@ theorem tripletAttrsGo_error (g : Graph α) (l : List (Nat × Nat × Nat)) (x : 
             exact ⟨t, List.mem_cons_of_mem _ ht, hcase⟩
           | ok rest => simp [ha, he, hb, hrest] at h
 
+/-- every id triplet `incident_triplet_ids` returns names an edge record that exists (it was just read to find
+the far end): the `?` on `get_edge` inside `incident_triplet_attributes` can never take its error arm -/
+theorem tripletIdsGo_edges_exist (g : Graph α) (v : Nat) (d : Direction) (es : List Nat)
+    (l : List (Nat × Nat × Nat)) (h : tripletIdsGo g v d es = .ok l) :
+    ∀ t ∈ l, ∃ ed, g.edges[t.2.1]? = some ed := by
+  induction es generalizing l with
+  | nil =>
+    simp only [tripletIdsGo, Except.ok.injEq] at h
+    subst h
+    intro t ht
+    exact absurd ht List.not_mem_nil
+  | cons e es ih =>
+    simp only [tripletIdsGo] at h
+    cases hv : g.incidentVertex e d with
+    | error x => simp [hv] at h
+    | ok far =>
+      cases hrest : tripletIdsGo g v d es with
+      | error x => simp [hv, hrest] at h
+      | ok rest =>
+        simp only [hv, hrest, Except.ok.injEq] at h
+        subst h
+        intro t ht
+        rcases List.mem_cons.1 ht with rfl | ht
+        · -- the far end of `e` was found, so the record of `e` exists
+          cases hed : g.edges[e]? with
+          | some ed => exact ⟨ed, rfl⟩
+          | none =>
+            cases d <;>
+              simp [incidentVertex, srcVertexId, dstVertexId, getEdge, hed] at hv
+        · exact ih rest hrest t ht
+
 end Graph
 
 namespace Scc
